@@ -6,7 +6,7 @@ out = {}
 bk = tempfile.mkdtemp()
 shutil.copytree(f"{ROOT}/evidence", f"{bk}/evidence")
 assert subprocess.run(["git", "-C", "/repo", "status", "--short"], capture_output=True, text=True).stdout.strip() == "", "/repo dirty"
-for d in sorted(glob.glob(f"{ROOT}/seeded/*-[ab]")):
+for d in sorted(glob.glob(f"{ROOT}/seeded/*-[a-z]")):
     sid = os.path.basename(d)
     prop = sid.split("-")[0]
     a = subprocess.run(["git", "-C", "/repo", "apply", f"{d}/patch.diff"], capture_output=True, text=True)
